@@ -4,8 +4,7 @@ verus! {
 //@include prelude/std_string.rs
 //@include prelude/utf8_facts.rs
 
-pub enum Error { IllegalArgument(String) }
-pub type Result<T> = std::result::Result<T, Error>;
+//@include prelude/error.rs
 
 //@take src/crypto.rs struct:KeyId drop_derives=Clone
 // assumed: the derived Clone is structural
